@@ -71,6 +71,13 @@ def run(tier, seed):
                 d = json.loads(line)
                 roots.append({"fen": d["fen"], "known_n": 1, "row": None})
                 families[d["family"]] = families.get(d["family"], 0) + 1
+    # a mate delivered by the 100th reversible half-move is still a mate: a third of the mate-in-one roots get a clock of 99 (or 98)
+    for r in roots:
+        if r["known_n"] == 1 and rnd.random() < 0.35:
+            f = r["fen"].split()
+            if len(f) >= 6 and f[3] == "-":
+                f[4], f[5] = str(rnd.choice([99, 99, 98])), "60"
+                r["fen"] = " ".join(f)
     classes = rnd.sample(c12.THREE + c12.FOUR, sz["tb_classes"]) if tier == "quick" else c12.THREE + c12.FOUR
     for c in classes:
         out = os.path.join(wd, f"rows_{c}.src")
